@@ -548,7 +548,96 @@ def _run_suppressing(ctx, M, s, last):
         Pool._apply = orig_apply
 
 
+FIELD_TABLE_TEXTS = (
+    '# id: p1\n# title: "t"\nafter a as A {x > 0}: b as B {y in [0 to @A.x]! and not (s = "u")} causes (c {forall i in xs: @i > -1} or d as D {abs(z) < 2.5}) within 100 ms',
+    'after p until q {x in {1, 2, x}}: some r {xs[0] + len(xs) > 2 ** 3 implies exists j in ![0 to 3]: xs[@j] = PI}',
+    'globally: no t {True}',
+    'until (a or b as Z): t as M {@M.pos.x iff False} requires u {m.v[1] != "k"} within 2 s',
+    'globally: a {x > 1} forbids b {not -x >= 0}',
+)
+
+
+def _another(value, name):
+    """A value of the same kind as `value` that differs from it (None when the table has no recipe)."""
+    import enum
+
+    from hpl.ast import HplLiteral
+
+    if isinstance(value, bool):
+        return not value
+    if isinstance(value, enum.Enum):
+        others = [m for m in type(value) if m is not value]
+        return others
+    if isinstance(value, float):
+        return [value + 1.0 if value != float('inf') else 5.0]
+    if isinstance(value, int):
+        return [value + 1]
+    if isinstance(value, str):
+        return [value + '2' if not value.startswith('@') else value + '2']
+    if isinstance(value, tuple) and value and all(getattr(v, 'is_expression', False) for v in value):
+        return [value + (value[0],), value[:-1] if len(value) > 1 else value + (HplLiteral.number(7),), tuple(reversed(value)) if len(set(map(str, value))) > 1 else value + (value[0],)]
+    if getattr(value, 'is_expression', False):
+        return [HplLiteral.number(7), HplLiteral.boolean(True), HplLiteral.string('zq')]
+    if value is None and name == 'alias':
+        return ['Q7']
+    if value is None and name == 'message_type':
+        return [typetok.message({'fields': {'x': ('num', 'int32')}, 'consts': {}}, 'T7')]
+    return None
+
+
+def run_field_table(ctx):
+    """Equality takes every field but `metadata` into account: for every node of a few parsed specifications and every
+    constructor field, a copy that differs in that field alone (another flag / number / name / operator / operand / type
+    token - whatever the constructor accepts) must not be equal to the node; a copy that differs in metadata alone must be
+    equal and hash alike."""
+    with ctx.timed('field-table'):
+        for text in FIELD_TABLE_TEXTS:
+            k, spec = lib.outcome('specification', text)
+            if k != 'ast':
+                raise core.HarnessError(f'field table text rejected: {text!r}: {spec}')
+            for node in astx.preorder(spec):
+                if not hasattr(node, '__attrs_attrs__'):
+                    continue
+                cls = astx.cname(node)
+                for a in node.__attrs_attrs__:
+                    if not a.init:
+                        continue
+                    old = getattr(node, a.name)
+                    if a.name == 'metadata':
+                        st, r = core.guarded(node.but, metadata=dict(old, zq_note='1'))
+                        if st == 'ok' and (r != node or _safe_hash(r) != _safe_hash(node)):
+                            v = Violation('field_table', f'metadata-counts:{cls}', {'text': text, 'class': cls, 'field': a.name}, f'{cls}: a copy that differs in metadata alone is not equal / hashes differently: {node}')
+                            ctx.report(v)
+                        ctx.case(('field', text, str(node), cls, a.name), True, 'field-table:metadata')
+                        continue
+                    news = _another(old, a.name)
+                    if isinstance(news, bool):
+                        news = [news]
+                    for new in news or ():
+                        st, r = core.guarded(node.but, **{a.name: new})
+                        if st != 'ok' or getattr(r, a.name) == old:
+                            ctx.count('field-table:not-constructible')
+                            continue
+                        if r == node:
+                            v = Violation('field_table', f'field-ignored:{cls}.{a.name}', {'text': text, 'class': cls, 'field': a.name}, f'{cls}: a copy with another {a.name} ({getattr(r, a.name)!r} instead of {old!r}) compares equal to the original {node}')
+                            ctx.report(v)
+                        ctx.case(('field', text, str(node), cls, a.name, str(new)), True, f'field-table:{cls}.{a.name}')
+
+
+def sub_field_table(inp):
+    """Replay: the whole (deterministic) table; inp names the class and field that failed."""
+    ctx = core.Ctx('C16', 'quick', 1, 0)
+    run_field_table(ctx)
+    for v in ctx.violations:
+        if (v['input'].get('class'), v['input'].get('field')) == (inp.get('class'), inp.get('field')):
+            raise Violation(v['sub'], v['sig'], inp, v['message'])
+
+
+SUBS['field_table'] = sub_field_table
+
+
 def run(ctx):
+    run_field_table(ctx)
     if ctx.tier == 'quick':
         core.run_sharded(ctx, __name__, 'shard', 1, (1000, 10))
     else:
